@@ -6,12 +6,12 @@ V = os.path.dirname(os.path.dirname(os.path.abspath(__file__)))
 CHECKS = {
  'C02': dict(technique='runtime monitoring: AstVm differential oracle (source vs raise(lower(source))) over seeded generated bodies, configs and states',
              text='Exploration. Every generated body that compiles without warnings is executed from many register states and difficulties both as source and as the raised '
-                  'lowered instruction stream; call logs (opcode, argument bits, real time) and all mentioned / non-scratch registers must agree. Quick: ~2k bodies, thorough: ~60k.',
+                  'lowered instruction stream; call logs (opcode, argument bits, real time) and all mentioned / non-scratch registers must agree. Quick: ~2k bodies, thorough: ~60k. Plus a directed workload: one register mentioned exactly once in a chosen syntactic context (17 contexts: nested difficulty switches, ternary branches, conditions, casts, ...) under register pressure.',
              note='Trusts AstVm as the language semantics (the property does too). NaN-free floats; source-side VM panics are inconclusive. Held only on the programs/configs generated.',
              design='3/C02'),
  'C05': dict(technique='runtime monitoring: invariant at a hook (register-allocator event log checked online against generator ground truth)',
              text='Exploration. The cfg(truth_verif) hook in assign_registers emits PoolInit/Alloc/Free events; every Alloc is checked against the registers the generator wrote into the '
-                  'source (any position), the independently listed general-purpose set of the language, and the set of live allocations; refusals must carry an error diagnostic.',
+                  'source (any position), the independently listed general-purpose set of the language, and the set of live allocations; refusals must carry an error diagnostic. Plus the directed single-mention workload (see C02) on TestLanguage, ANM and old ECL register files.',
              note='General-purpose register lists per game are encoded independently in vlib/realenv.py. Lexical lifetimes assumed. Parameter registers are covered through the CLI sub workload.',
              design='3/C05'),
 }
@@ -23,14 +23,14 @@ CHECKS['C06'] = dict(technique='runtime monitoring: AstVm differential oracle (b
 CHECKS['C07'] = dict(technique='runtime monitoring: AstVm differential oracle (raise with blocks vs raise without blocks) + recompile-equality of both forms',
              text='Exploration. Instruction streams from lowered structured bodies and from random flat jump graphs (overlapping loops, shared end labels, multi-referrer labels, explicit-time '
                   'jumps, interrupt labels, both counting-jump flavours) are raised with block recovery off and on (+postprocess); both ASTs are executed in AstVm from many states and both printed '
-                  'forms are re-parsed and re-lowered: traces must agree and, when both recompile, the instructions must be identical.',
+                  'forms are re-parsed and re-lowered: traces must agree and, when both recompile, the instructions must be identical. A third stream family are near-structured streams: the flat forms of nested if/else-if chains, while/do-while loops and loops with breaks, perturbed by 0-2 edits (jump retargeted, label moved by one statement, goto dropped, jump duplicated).',
              note='Trusts AstVm; where the block form contains a jump into a nested block the comparison runs on its desugaring (relies on C06). Streams with explicit-time jumps are decided by the '
                   'recompile-equality oracle only (AstVm block-time rule is inexact when time runs ahead of labels). Difficulty-tagged jumps are not generated (TestLanguage has no difficulty).',
              design='3/C07')
 CHECKS['C04'] = dict(technique='runtime monitoring: crash/abort/CPU/allocation monitors + Result-vs-diagnostics oracle over generated, mutated and hostile text inputs',
              text='Exploration. Every input is compiled in an isolated worker process through the exact CLI pipeline; the monitors observe worker death (abort, stack overflow, allocation failure), '
                   'panics (hook with site signature, including diagnostic-rendering panics), CPU seconds and peak allocation, and the oracle requires failure <=> an error-severity diagnostic was printed. '
-                  'Inputs: grammar-generated files for all tools/games, token/byte mutants, a hostile list (extreme literals, reserved syntax, nesting to 256), mapfile texts. Thorough runs dev and release profiles.',
+                  'Inputs: grammar-generated files for all tools/games, token/byte mutants, a hostile list (extreme literals, reserved syntax, nesting to 256), mapfile texts. Thorough runs dev and release profiles. Plus the finite typing matrix of C09 (every operator/condition/count construct x int/float/string operands, in random nestings) and multi-byte characters inserted at every position of mapfiles.',
              note='In-process wrappers of the private CLI run functions (cfg(truth_verif)); a sample is re-executed through the real process. Unbounded liveness restated as 20 CPU-seconds. Requests for legitimately '
                   'enormous outputs (65535x65535 dummy image) are not treated as hostile.',
              design='3/C04')
@@ -42,14 +42,14 @@ CHECKS['C16'] = dict(technique='runtime monitoring: crash/abort/CPU/allocation m
              design='3/C16')
 CHECKS['C01'] = dict(technique='runtime monitoring: round-trip oracle (bytes of compile(decompile(B)) vs B) over bundled and freshly compiled binaries, option subsets, widths, alias mapfiles',
              text='Exploration. B ranges over the 30 bundled binaries (all 32 option subsets each) and binaries truth just compiled from generated sources of every format/game; each is decompiled under sampled '
-                  'option subsets x widths (x optional alias mapfile), recompiled (ANM with -i B) and compared bytewise; mismatches are classified by an independent layout parser (first differing field).',
+                  'option subsets x widths (x optional alias mapfile), recompiled (ANM with -i B) and compared bytewise; mismatches are classified by an independent layout parser (first differing field). Old-ECL sources contain runs of look-alike instructions under per-difficulty labels (with time labels inside the run, masks with holes, extra flag bits, incomplete covers), the inputs on which difficulty-switch recovery can go wrong.',
              note='Loss-warning exemption = any decompile warning other than the byte-blob notice; exemptions are counted. Generators avoid constant conditions / unreferenced MSG scripts most of the time '
                   '(both are recorded known findings).',
              design='3/C01')
 CHECKS['C19'] = dict(technique='runtime monitoring: repeated fresh process launches with byte comparison of stdout, stderr and output files',
              text='Exploration. Each (command, input) is executed N times as fresh vtruth processes (new hash-map seeds each); all observations must be byte-identical. Inputs are constructed to have '
                   'competing entries at hash-map iterations that reach output (register-name clashes, enum definitions, too-complex notes, many simultaneous errors) plus generated/mutated sources, '
-                  'decompiles and extracts. N = 8 quick (miss <= 2^-7 per 2-way race), 40 thorough.',
+                  'decompiles and extracts. N = 8 quick (miss <= 2^-7 per 2-way race), 40 thorough. Constructed inputs now include one intrinsic assigned to several opcodes, several names for one opcode/register, and decompiles of files with many unknown or wrongly-signed opcodes.',
              note='Probabilistic: a k-way hash-order race is missed with probability <= (1/k!)^(N-1)... at worst 2^-(N-1). Only the hash seed varies between runs (single-threaded tool).',
              design='3/C19')
 CHECKS['C08'] = dict(technique='runtime monitoring: print/parse round-trip oracle with a canonical AST serialiser, over generated, decompiled and directly built ASTs x widths',
@@ -68,51 +68,51 @@ CHECKS['C11'] = dict(technique='runtime monitoring: reference-model oracle (inde
 CHECKS['C09'] = dict(technique='runtime monitoring: generator-as-reference-typer oracle over well-typed programs and single-point type mutations; static-vs-dynamic type monitor',
              text='Exploration. Bodies generated from the documented typing rules must be accepted by the real type_check pass; for each, one typed expression slot at a random position (any block depth, any '
                   'statement kind: operands, conditions, counts, initialisers, arguments, switch cases, ternary branches) is replaced by an expression of another type and must be rejected, plus a fixed list of '
-                  'ill-typed statements wrapped in every kind of nested block; for accepted bodies every assignment RHS subexpression is evaluated (AstVm::eval) and its value type compared with compute_ty.',
+                  'ill-typed statements wrapped in every kind of nested block; for accepted bodies every assignment RHS subexpression is evaluated (AstVm::eval) and its value type compared with compute_ty. A finite matrix (552 cells) of every operator / assignment operator / condition / loop count / ternary / difficulty switch / call argument construct x operand types, each in a random nesting, must get the verdict of an independent rule table.',
              note='The generator is the reference typer (well-typed by construction, ill-typed by the single injected fault). The debug_assert_eq!(check_expr, compute_ty) in the dev build is an extra in-code monitor.',
              design='3/C09')
 CHECKS['C10'] = dict(technique='runtime monitoring: reference-model oracle (independent scope model) over the resolver\'s def-equivalence classes; metamorphic renaming oracle on compiled bytes',
              text='Exploration. Scope trees over a pool of 4 variable / 2 function names (+ aliases of this and another language) are resolved by the real resolver; the partition of identifier occurrences by '
                   'definition (read from the make_idents_unique rendering, in text order) must equal the partition computed by an independent model, programs with a model-detected error must be rejected, and '
-                  'consistently renamed programs must resolve to the same partition and (for function-free programs, through the ANM CLI pipeline) compile to identical bytes.',
+                  'consistently renamed programs must resolve to the same partition and (for function-free programs, through the ANM CLI pipeline) compile to identical bytes. File level: ANM scripts/sprites named like register or instruction aliases must bind to the declared thing wherever used as a value (checked in the written file and by renaming), and old-ECL instruction aliases that exist in both languages of a file bind per language.',
              note='Undocumented combinations are not generated (local+const of one name in one block, local named like a parameter in the body block, name used in its own initialiser, arity mismatches).',
              design='3/C10')
 CHECKS['C12'] = dict(technique='runtime monitoring: reference-model oracle (independent argument encoder) + inverse-function oracle (decode, re-encode) over random signatures and boundary values',
              text='Exploration. Random valid signatures (all parameter letters and attributes, padding anywhere, <= 16 parameters) are declared in a user mapfile; one call with boundary values / registers / strings '
                   'is compiled through the real ANM pipeline; the blob and register mask read by an independent layout parser must equal an independent encoder, the argument list printed by decompile must equal the '
-                  'arguments written, re-encoding must reproduce the blob, and values that fit under neither reading / unencodable strings / oversize strings must be diagnosed.',
+                  'arguments written, re-encoding must reproduce the blob, and values that fit under neither reading / unencodable strings / oversize strings must be diagnosed. A register given to an immediate-only parameter (accepted with a warning) must be stored without a mask bit while still occupying its bit position.',
              note='Conservative range rule (see DESIGN 3/C12). Jump (o,t) and arg0 parameters are exercised by C01/C13, not here. Registers only in 4-byte int and float slots.',
              design='3/C12')
 CHECKS['C15'] = dict(technique='runtime monitoring: inverse-function oracle (decompiled literal == source string) over a character/length sweep under every string encoding',
              text='Exploration. Strings over the unambiguous Shift-JIS repertoire (incl. trail bytes 0x5C/0x7C/0x40 and bytes equal to the running mask) of lengths 0..300 around all block/buffer boundaries '
                   'and furigana sequences are compiled and decompiled as instruction arguments under every string encoding (user signatures in ANM; built-in MSG/END signatures of TH06-TH18) and as STD names, '
-                  'ANM paths and ciphered mission lines; the decompiled literal must be identical, unencodable or oversize strings must be rejected with an error.',
+                  'ANM paths and ciphered mission lines; the decompiled literal must be identical, unencodable or oversize strings must be rejected with an error. Fixed buffers (also nulless+masked) and 128/64-byte metadata fields get strings that fill them exactly, one byte less and one byte more, counted in bytes with multi-byte characters.',
              note='Repertoire = characters on which python shift_jis and cp932 agree and round-trip (backslash/tilde excluded). With a pending furigana carry-over (furibug) only survival is judged, not the size limit.',
              design='3/C15')
 CHECKS['C13'] = dict(technique='runtime monitoring: reference-model oracle (independent label arithmetic) over times read from compiled files by an independent layout parser',
              text='Exploration. Label/instruction sequences (absolute, relative, negative, zero, repeated, constant-expression, const-item and wrapping labels; nested in blocks, if/else, loop, times) are compiled '
                   'for ANM, MSG, STD and old ECL; the time stored on every marker instruction must equal the model; the decompiled text, read back with the same model, must reproduce the stored times, and '
-                  'recompiling must reproduce them again.',
+                  'recompiling must reproduce them again. Old-ECL sequences include runs of markers under per-difficulty labels with time labels inside the run (the decompiler merges such runs into difficulty switches).',
              note='Only times inside the field range of the format are judged here (C03 covers the rest).',
              design='3/C13')
 CHECKS['C14'] = dict(technique='runtime monitoring: exhaustive enumeration of masks per flag set through the real DiffFlagDefs + exactly-one coverage monitor over emitted instruction copies',
              category='exploration',
              text='Part 1: for sampled flag-definition sets (default digits, shipped sets, generated renamings / default-on bits) all 256 masks are printed and parsed back (real code), cross-checked by an '
                   'independent label parser, and pushed end to end through decompile + recompile of a harness-written ECL file with masks 0..255. Part 2: statements with 1-3 (possibly nested) switches with holes '
-                  'under every kind of label are compiled; for every difficulty the emitted copies must satisfy the exactly-one / right-values / default-on-bits conditions.',
+                  'under every kind of label are compiled; for every difficulty the emitted copies must satisfy the exactly-one / right-values / default-on-bits conditions. Part 3 (decompile side): harness-written ECL files with runs of look-alike instructions whose masks form partitions, partitions with a gap, overlaps, incomplete covers, differing default-on bits, or are separated by time labels are decompiled with switch recovery on and recompiled; every instruction must keep its time, mask and argument. Flag sets are also defined in two layers (later definition wins).',
              note='Exhaustive only in the mask dimension; flag sets and statements are sampled.',
              design='3/C14')
 CHECKS['C18'] = dict(technique='runtime monitoring: offline checker of the debug-info document against offsets/registers recomputed from the written binary by an independent layout parser',
              text='Exploration. Generated files of every format are compiled with --output-debug-info; instruction offsets, end offsets and label offsets of every exported script are compared with the '
                   'binary (independent layout parser); dedicated workloads check label times against the C13 label model and label positions between the surrounding marker instructions, every local\'s '
-                  'bound-to register against the register actually encoded in a marker instruction that uses it (ANM, EoSD..StB ECL, nested blocks, times loops), and const values against the C11 evaluator.',
+                  'bound-to register against the register actually encoded in a marker instruction that uses it (ANM, EoSD..StB ECL, nested blocks, times loops), and const values against the C11 evaluator. TH12+ MSG scripts with furigana lines (whose left-over bytes enlarge the next instruction) are checked for instruction, label and end offsets.',
              note='MSG files with unreferenced scripts are skipped (not delimitable in the binary). Only finite const values judged.',
              design='3/C18')
 CHECKS['C20'] = dict(technique='runtime monitoring: reference-model oracle (numbering rule written from the documentation) compared with ids/indices/offsets in the written file read by an independent layout parser',
              text='Exploration. Generated ANM/MSG/old-ECL/STD layouts (1..6 things in any order, explicit/decreasing/duplicate/const-expression ids, duplicate sprite names across entries, sparse MSG tables with defaults and '
                   'shared scripts, use before definition) are compiled; the expected id of every name is computed from the documented rule and compared with the tables of the written file and with the argument '
                   'written by every instruction that uses the name (sprite/script arguments, timeline sub arguments in the arg0 field or blob, call instructions, MSG table offsets via marker instructions, '
-                  'STD instance object indices). Conflicting sprite ids and unknown names must be errors.',
+                  'STD instance object indices). Conflicting sprite ids and unknown names must be errors. Constant-expression ids use ternaries, bit operators, comparisons, division and shifts over a const item.',
              note='Modern (th10+) ECL sub names are strings, not numbers, and are outside this property. MSG scripts are located through marker instructions, so every script is referenced at least once.',
              design='3/C20')
 CHECKS['C17'] = dict(technique='runtime monitoring: exhaustive pixel sweep through the real transcoders + byte-for-byte comparison of THTX sections after real extract/compile runs against an independent image-source precedence model',
